@@ -8,7 +8,8 @@ from rules import common as C
 UNITS = ['common/iovector.cpp']
 FLOOR = 25
 P = 'C14'
-CLAIM = ('Decides ONLY the bounds clause of the property for common/iovector.{h,cpp}: copy lengths and output indices are bounded by both '
+CLAIM = ('[Also decided: an output element of slice() gets the requested count as its length only as a shrink of the source-derived length; do_extract_front/back remove bytes from the vector only after the (fallible) callback accepted them.] '
+         'Decides ONLY the bounds clause of the property for common/iovector.{h,cpp}: copy lengths and output indices are bounded by both '
          'sides: the pipe/memcpy step is min(size, dest.len, src.len); every callback of do_extract_front/back receives either the whole '
          'front/back element or `bytes` under bytes <= its length, and front()/back() are read only while the view is non-empty; the '
          'sub-vector extractors and slice() store into the output array only below its capacity; the contiguous extractors return a '
@@ -66,6 +67,12 @@ def extract(R, prog):
                 if re.match(r'^[\w\.\(\)>\-]+\.iov_len$', ln or ''):
                     return True
                 return ln == by and any(re.match(r'^G:%s <= [\w\.\(\)>\-]+\.iov_len=T$' % re.escape(by), k) for k in st)
+            consume = lambda ev, acc=acc: (ev.kind == 'call' and (ev.callee() or '').endswith('::pop_' + acc) and ev.recv_path() == 'this') or \
+                (ev.kind == 'binop' and ev.e['op'] == '-=' and (ev.path(ev.e['l']) or '').endswith('.iov_len'))
+            K.check_at(R, P + '.K8', G, res, consume,
+                       require=lambda st, ev, cbn=cbn: any(k.startswith('G:%s(' % cbn) and k.endswith(') < 0=F') for k in st),
+                       key_fn=lambda ev, nm=nm, n=n: '%s.K8:ioview::%s#%d:consume-only-after-callback-accepted' % (P, nm, n),
+                       describe=lambda ev: 'bytes leave the vector (pop / iov_len -=) only after the callback took them: a refused element stays in the vector', min_sites=2, what='pop/shrink')
             K.check_at(R, P + '.K6', G, res, lambda ev, cbn=cbn: ev.kind == 'call' and ev.e.get('op') == '()' and ev.recv_path() == cbn, okcb,
                        key_fn=lambda ev, nm=nm, n=n: '%s.K6:ioview::%s#%d:callback-length-within-element' % (P, nm, n),
                        describe=lambda ev: 'callback length is the element length, or `bytes` under bytes <= element length', min_sites=2, what='cb(ptr, n)')
@@ -107,6 +114,12 @@ def extract(R, prog):
                require=lambda st, ev: ('V:cnt=0' in CN(st) and 'G:iov->iovcnt=T' in CN(st)) or 'G:cnt < iov->iovcnt=T' in CN(st),
                key_fn=lambda ev: P + '.K6:iovector_view::slice:store-below-capacity',
                describe=lambda ev: 'output element stored at index 0 of a non-empty output, or at cnt < iov->iovcnt', min_sites=4, what='ptr[cnt] store')
+    pcount = K.param(f, 0)
+    shrink = lambda ev: ev.kind == 'binop' and ev.e['op'] == '=' and re.match(r'^ptr\[cnt\]\.iov_len$', CN.s(ev.path(ev.e['l']))) and ev.path(ev.e['r']) == pcount
+    K.check_at(R, P + '.K6', G, res, shrink,
+               require=lambda st, ev: ('G:%s <= %s=T' % (pcount, ev.path(ev.e['l']))) in st,
+               key_fn=lambda ev: P + '.K6:iovector_view::slice:requested-count-only-shrinks-an-output-element',
+               describe=lambda ev: 'an output element gets the requested count as its length only if that is <= the length it already has (derived from the source element), so it never extends past the source', min_sites=2, what='ptr[cnt].iov_len = count')
     # contiguous extractors of the view
     for nm, acc in (('extract_front_continuous', 'f'), ('extract_back_continuous', 'b')):
         f = prog.find('iovector_view::' + nm)
